@@ -64,6 +64,9 @@ pub fn val_bytes(v: u8) -> Vec<u8> {
         4 => vec![b'B'; 9000],
         5 => (0..70_000u32).map(|i| (i % 251) as u8).collect(),
         6 => b"333".to_vec(),
+        // entry sizes around the 8 KiB and 16 KiB marks (an entry is 25 + key + value bytes)
+        100..=200 => vec![b'S'; 8100 + (v as usize - 100)],
+        201..=240 => vec![b'T'; 16_340 + (v as usize - 201)],
         _ => vec![b'v', v],
     }
 }
@@ -832,7 +835,13 @@ fn run_word_here(prop: &str, cfg: Cfg, word: &[Op], keys: &[u8], o: Oracles, tra
                     }
                 }
             }
-            if e.cfg.thr == Thr::All {
+            // "when every non-empty data file is eligible": under ALL thresholds, and whenever the
+            // selection (asked before the merge) contained every non-empty data file anyway
+            let all_selected = {
+                let nonempty: Vec<u64> = data_files(&before).iter().filter(|(_, b)| !b.is_empty()).map(|(id, _)| *id).collect();
+                !nonempty.is_empty() && nonempty.iter().all(|id| selected.contains(id))
+            };
+            if e.cfg.thr == Thr::All || all_selected {
                 // "a fresh store holding only the live pairs", built with the real code (the size an
                 // independent model of the file format gives is used only if that fails)
                 let minimal: u64 = fresh_store_size(&e.dir.with_extension("fresh"), &e.cfg, &e.model).unwrap_or_else(|| e.model.iter().map(|(k, v)| model::entry_size(k, v)).sum());
@@ -1148,6 +1157,21 @@ pub fn plan(prop: &str, tier: Tier, seeds: &[u64]) -> Vec<Sweep> {
         }
         sweeps.push(Sweep { name: "scale".into(), alphabet: vec![], depth: 0, cfgs, oracles, keys, trailing_reopens: 0, preload: vec![], words });
     };
+    // SIZES: one entry of every length from 8 126 to 8 226 bytes (and 16 366 .. 16 405) among small ones
+    let sizes = |sweeps: &mut Vec<Sweep>, oracles: Oracles| {
+        let mut words = vec![];
+        for v in (100u8..=200).chain(201..=240) {
+            words.push(vec![Op::Set(0, v), Op::Set(1, 0), Op::Merge, Op::Set(1, v), Op::Reopen, Op::Merge]);
+            words.push(vec![Op::Set(1, 0), Op::Set(0, v), Op::Set(1, 1), Op::Merge, Op::Reopen]);
+        }
+        let mut cfgs = vec![];
+        for mfs in [0u64, 9000, MFS_BIG] {
+            for (cache, conc) in [(1usize, 1usize), (0, 2)] {
+                cfgs.push(Cfg { mfs, thr: Thr::All, cache, conc, seed: seeds[0], sync_always: false, clock: 0 });
+            }
+        }
+        sweeps.push(Sweep { name: "sizes".into(), alphabet: vec![], depth: 0, cfgs, oracles, keys: main_keys.clone(), trailing_reopens: 0, preload: vec![], words });
+    };
     // COUNT thresholds: thousands of keys in one store (a merge pass over > 4096 entries, > 65 536
     // entries, > 256 files, every DashMap shard holding many keys)
     let bulk = |sweeps: &mut Vec<Sweep>, oracles: Oracles| {
@@ -1213,6 +1237,7 @@ pub fn plan(prop: &str, tier: Tier, seeds: &[u64]) -> Vec<Sweep> {
             sweeps.push(Sweep { name: "wide-cold-readers".into(), alphabet: wide_ops(true, false), depth: tier.pick(2, 3), cfgs: cold, oracles: kv, keys: wide_keys.clone(), trailing_reopens: 0, preload: vec![], words: vec![] });
             scale(&mut sweeps, kv);
             bulk(&mut sweeps, kv);
+            sizes(&mut sweeps, kv);
             sweeps.push(Sweep { name: "clock".into(), alphabet: vec![SET_A1, SET_A22, SET_B1, SET_BBIG, DEL_A, DEL_B, Op::Merge], depth: tier.pick(4, 5), cfgs: with_clocks(core_grid(&seeds[..1], &[Thr::All, Thr::Dead], &[0, MFS_BIG])), oracles: kv, keys: main_keys.clone(), trailing_reopens: 0, preload: vec![], words: vec![] });
         }
         "C02" => {
@@ -1242,6 +1267,7 @@ pub fn plan(prop: &str, tier: Tier, seeds: &[u64]) -> Vec<Sweep> {
             after_merge(&mut sweeps, tier.pick(4, 5), kv);
             scale(&mut sweeps, kv);
             bulk(&mut sweeps, kv);
+            sizes(&mut sweeps, kv);
             sweeps.push(Sweep { name: "clock".into(), alphabet: full.clone(), depth: tier.pick(4, 5), cfgs: with_clocks(core_grid(&seeds[..1], &[Thr::All, Thr::Dead, Thr::Size27], &[0, MFS_BIG])), oracles: kv, keys: main_keys.clone(), trailing_reopens: 0, preload: vec![], words: vec![] });
             sweeps.push(Sweep { name: "wide".into(), alphabet: wide_ops(true, true), depth: tier.pick(2, 3), cfgs: core_grid(&seeds[..1], &[Thr::All, Thr::Size27], &[0, 60]), oracles: kv, keys: wide_keys.clone(), trailing_reopens: 0, preload: vec![], words: vec![] });
             let cold: Vec<Cfg> = core_grid(&seeds[..1], &[Thr::All, Thr::Size27], &[0, 60]).into_iter().map(|c| Cfg { cache: 0, conc: 2, ..c }).collect();
